@@ -224,6 +224,28 @@ def check_synrule(ctx):
             if not ok:
                 ctx.violation("synrule", {"rid": d.get("R-id")}, "equal SynRules whose fragments are not isomorphic")
         seen[k] = r1
+    # same sides, different atom correspondence: not the same rule
+    if ctx.shard == 0:
+        from synkit.IO.chem_converter import rsmi_to_its
+        pairs = [("[CH3:1][C:2](=[O:3])[O:4][CH3:5].[OH2:6]>>[CH3:1][C:2](=[O:3])[OH:6].[CH3:5][OH:4]",
+                  "[CH3:1][C:2](=[O:3])[O:4][CH3:5].[OH2:6]>>[CH3:1][C:2](=[O:3])[OH:4].[CH3:5][OH:6]"),
+                 ("[CH3:1][CH2:2][Br:3].[Br-:4]>>[CH3:1][CH2:2][Br:4].[Br-:3]",
+                  "[CH3:1][CH2:2][Br:3].[Br-:4]>>[CH3:1][CH2:2][Br:3].[Br-:4]")]
+        for ra, rb in pairs:
+            for core in (False, True):
+                try:
+                    ia, ib = rsmi_to_its(ra, core=core), rsmi_to_its(rb, core=core)
+                    if ia.number_of_nodes() == 0 or ib.number_of_nodes() == 0:
+                        continue
+                    A_, B_ = SynRule(ia, canonicaliser=c), SynRule(ib, canonicaliser=c)
+                except Exception:
+                    ctx.count("synrule_construction_failed")
+                    continue
+                ctx.count("synrule_same_sides_other_mapping_checked")
+                same_rc = B.is_isomorphic(A_.rc.raw, B_.rc.raw, cov_node, cov_edge)
+                if (A_ == B_) and not same_rc:
+                    ctx.violation("synrule", {"a": ra, "b": rb, "core": core},
+                                  "SynRule(nauty): two rules with the same sides but a different atom correspondence (non-isomorphic reaction centres) compare equal")
 
 
 def two_order_complete_family(quick):
